@@ -534,10 +534,12 @@ def build_rules(rep, prog):
         vals = [bi for bi, t in b.calls(lambda c: facts.callee_matches(c, "mesh::Builder::<A>::build", "mesh::Mesh::<A, B>::new"))
                 ] + [bi for bi, t in b.calls(lambda c: c["path"].startswith("retrofire_geom::solids::") and c["path"].endswith("::build"))]
         sl = T.Slicer(b)
-        ok = bool(vals) and all(any(b.dominates(v, r) for v in vals) for r in rets)
-        # the returned value IS the validated mesh
+        # every path to a return passes one of the validating calls (several of them when build() has an early exit of its own)
+        ok = bool(vals) and not (set(rets) & b.reachable(0, removed_blocks=set(vals), unwind=False))
+        # the returned value IS the validated mesh (on every path)
         rt = sl.local(0)
-        ok_val = rt[0] == "call" and (rt[1].split(" => ")[0].endswith("::build") or "Mesh::<A, B>::new" in rt[1])
+        alts = list(rt[2]) if rt[0] == "phi" else [rt]
+        ok_val = bool(alts) and all(a_[0] == "call" and (a_[1].split(" => ")[0].endswith("::build") or "Mesh::<A, B>::new" in a_[1]) for a_ in alts)
         rep.inst("C15.D7", "%s returns through mesh validation: %s / returns its result: %s" % (b.path.split("solids::")[1], ok, ok_val), config=cfg)
         if not (ok and ok_val):
             rep.violate("C15.D7", "D7|%s" % b.path, b.where(), "%s can return a mesh that did not pass Builder::build / Mesh::new validation" % b.path.split("solids::")[1], config=cfg)
